@@ -2,17 +2,18 @@
 use crate::util::fill;
 use crate::wire::*;
 
-pub const SELF_DELIMITING: usize = 14;
-pub const TOTAL: usize = 19;
-pub const NAMES: [&str; 19] = [
-    "V5x0", "V5x2", "V7x1", "V9-T", "V9-D", "V9-TD", "V9-OT+OD", "IPFIX-T", "IPFIX-D", "IPFIX-TD", "IPFIX-T'", "IPFIX-D(absent id)", "IPFIX-header-only(16 bytes)", "V9-count-0(20 bytes)", "V9-D(absent id)", "version-6", "version-0", "garbage", "V9 truncated inside a template",
+pub const SELF_DELIMITING: usize = 17;
+pub const TOTAL: usize = 22;
+pub const NAMES: [&str; 22] = [
+    "V5x0", "V5x2", "V7x1", "V9-T", "V9-D", "V9-TD", "V9-OT+OD", "IPFIX-T", "IPFIX-D", "IPFIX-TD", "IPFIX-T'", "IPFIX-D(absent id)", "IPFIX-header-only(16 bytes)", "V9-count-0(20 bytes)", "V7x0", "V9-D+T'(data then redefinition)", "IPFIX-D+T(data then redefinition)",
+    "V9-D(absent id)", "version-6", "version-0", "garbage", "V9 truncated inside a template",
 ];
 // indices of the packets that are not self-delimiting / erroring
-pub const V9_D_ABSENT: usize = 14;
-pub const VERSION_6: usize = 15;
-pub const VERSION_0: usize = 16;
-pub const GARBAGE: usize = 17;
-pub const V9_TRUNCATED: usize = 18;
+pub const V9_D_ABSENT: usize = 17;
+pub const VERSION_6: usize = 18;
+pub const VERSION_0: usize = 19;
+pub const GARBAGE: usize = 20;
+pub const V9_TRUNCATED: usize = 21;
 
 /// one 12-byte record followed by (salt mod 4) zero bytes of padding, so that set lengths cover every alignment
 fn body12(salt: usize) -> Vec<u8> {
@@ -44,18 +45,22 @@ pub fn packet(k: usize, salt: usize) -> Vec<u8> {
         // the two shortest packets there are: nothing but a header
         12 => ipfix_message(&IpfixMsg::new(vec![])),
         13 => v9_packet(&V9Pkt::new(vec![])),
-        14 => v9_packet(&V9Pkt::new(vec![V9Set::Data(999, body12(salt + 6))])),
-        15 => {
+        14 => fixed_distinct(7, 0, salt),
+        // data for 256 followed, in the same packet, by a redefinition of 256 (parsing such a packet twice is not idempotent)
+        15 => v9_packet(&V9Pkt::new(vec![V9Set::Data(256, body12(salt + 7)), V9Set::Tpl(vec![V9Tpl { id: 256, fields: vec![fs(2, 8), fs(96, 4)] }], 0)])),
+        16 => ipfix_message(&IpfixMsg::new(vec![IpfixSet::Data(256, body12(salt + 8)), IpfixSet::Tpl(vec![IpfixTpl { id: 256, fields: vec![fs(8, 4), fs(7, 2), fs(4, 1), fs(5, 1), fs(1, 4)] }], 0)])),
+        17 => v9_packet(&V9Pkt::new(vec![V9Set::Data(999, body12(salt + 6))])),
+        18 => {
             let mut b = fixed_distinct(5, 1, salt);
             b[1] = 6;
             b
         }
-        16 => {
+        19 => {
             let mut b = fixed_distinct(5, 0, salt);
             b[1] = 0;
             b
         }
-        17 => (0..9).map(|j| fill(salt + 77, j) | 0x80).collect(),
+        20 => (0..9).map(|j| fill(salt + 77, j) | 0x80).collect(),
         _ => {
             let b = v9_packet(&V9Pkt::new(vec![V9Set::Tpl(vec![v9a], 0)]));
             b[..b.len() - 6].to_vec()
